@@ -64,7 +64,7 @@ DOC_WORDS = ['the', 'quick', 'value', 'of', 'this', 'item', 'is', 'used', 'when'
 
 
 # text that is harmless in a spec but fragile inside generated string literals
-HOSTILE_DOC_WORDS = ['"""', "'''", '\\u12', '\\x4', '\\N{dash}', 'back\\slash', 'end\\', '*/', '/*',
+HOSTILE_DOC_WORDS = ['"""', '""""', '"""""', '"' * 7, 'q""', "''''", "'''", '\\u12', '\\x4', '\\N{dash}', 'back\\slash', 'end\\', '*/', '/*',
                      '${x}', '`tick`', '<b>', '@param', '"""quoted"""']
 
 
